@@ -1,14 +1,29 @@
 // Package vf is the shared runtime of every check: case enumeration with
 // replay filtering, violation bookkeeping against known_findings.json,
 // measured coverage counters and the evidence writer.
+//
+// Execution model. A check is run by a parent process that starts N worker
+// processes of the same binary (VERIF_SHARD=k/N). Every worker executes the
+// same deterministic check code single-threaded; vf.Parallel(n, f) hands out
+// the indices 0..n-1 so that each index is executed by exactly one worker
+// (claimed through O_EXCL files). Workers write partial results; the parent
+// merges them, writes the evidence file and prints the verdict. Process-level
+// (not goroutine-level) parallelism is deliberate: the code under test is
+// only ever driven from one goroutine per process, so package-level state in
+// kyber (tables, scratch buffers) can never be raced by the harness itself -
+// such races belong to C20 alone - and every case is a deterministic function
+// of the cases its worker ran before it.
 package vf
 
 import (
+	"bufio"
+	"bytes"
 	"crypto/sha256"
 	"encoding/binary"
 	"encoding/json"
 	"fmt"
 	"os"
+	"os/exec"
 	"path/filepath"
 	"runtime"
 	"runtime/debug"
@@ -16,16 +31,23 @@ import (
 	"strconv"
 	"strings"
 	"sync"
-	"sync/atomic"
 	"time"
 )
 
-// Root is the /verif directory (evidence, replays, known findings live here).
+// Root is the /verif directory (known findings live here).
 func Root() string {
 	if r := os.Getenv("VERIF_ROOT"); r != "" {
 		return r
 	}
 	return "/verif"
+}
+
+// Out is where evidence and replay files go (default Root()).
+func Out() string {
+	if r := os.Getenv("VERIF_OUT"); r != "" {
+		return r
+	}
+	return Root()
 }
 
 type Finding struct {
@@ -57,6 +79,30 @@ func (x *Ctx) Failf(key string, format string, a ...any) {
 }
 func (x *Ctx) Failed() bool { return len(x.fails) > 0 }
 
+type violation struct {
+	failure
+	CaseID string `json:"case_id"`
+	Count  int    `json:"count"`
+}
+
+// partial is what one worker hands to the parent.
+type partial struct {
+	Evals       int64                 `json:"evals"`
+	Counters    map[string]int64      `json:"counters"`
+	Classes     map[string]int64      `json:"classes"`
+	Samples     map[string][]any      `json:"samples"`
+	Notes       []string              `json:"notes"`
+	Viol        map[string]*violation `json:"viol"`
+	Capped      []string              `json:"capped"`
+	Broken      []string              `json:"broken"`
+	OnlyHit     bool                  `json:"only_hit"`
+	Level       string                `json:"level"`
+	Rule        string                `json:"rule"`
+	Assumptions []string              `json:"assumptions"`
+	Extra       map[string]any        `json:"extra"`
+	Finished    bool                  `json:"finished"`
+}
+
 type Check struct {
 	ID, Tier string
 	Seed     int64
@@ -65,42 +111,33 @@ type Check struct {
 	start    time.Time
 	deadline time.Time
 
-	evals atomic.Int64
-	mu    sync.Mutex
-	nt    [64]map[uint64]struct{}
-	ntmu  [64]sync.Mutex
-
-	classes  map[string]int64
-	samples  map[string][]any
-	counters map[string]int64
-	notes    []string
-	viol     map[string]*violation // by key
-	known    []Finding
-	capped   []string
-	broken   []string
-	onlyHit  bool
+	mu    sync.Mutex // the watchdog goroutine is the only concurrent accessor
+	p     partial
+	nt    map[uint64]struct{}
+	known []Finding
 }
 
-type violation struct {
-	failure
-	CaseID string
-	count  int
-	known  *Finding
-	replay string
-}
+// worker identity (process-wide)
+var (
+	shardK, shardN int
+	partDir        string
+	parSeq         int
+	inPar          bool
+)
 
 func New(id, tier string) *Check {
-	c := &Check{ID: id, Tier: tier, Level: "model_checking", start: time.Now(),
-		classes: map[string]int64{}, samples: map[string][]any{}, counters: map[string]int64{}, viol: map[string]*violation{}}
-	for i := range c.nt {
-		c.nt[i] = map[uint64]struct{}{}
-	}
+	c := &Check{ID: id, Tier: tier, Level: "model_checking", start: time.Now(), nt: map[uint64]struct{}{}}
+	c.p = partial{Counters: map[string]int64{}, Classes: map[string]int64{}, Samples: map[string][]any{}, Viol: map[string]*violation{}}
 	if s := os.Getenv("VERIF_SEED"); s != "" {
 		if v, err := strconv.ParseInt(s, 10, 64); err == nil {
 			c.Seed = v
 		}
 	}
 	c.Only = os.Getenv("VERIF_ONLY")
+	if s := os.Getenv("VERIF_SHARD"); s != "" {
+		fmt.Sscanf(s, "%d/%d", &shardK, &shardN)
+		partDir = os.Getenv("VERIF_PARTDIR")
+	}
 	// internal deadline: exhaustive:false, never a violation
 	lim := 20 * time.Minute
 	if tier == "thorough" {
@@ -116,7 +153,7 @@ func New(id, tier string) *Check {
 	if err == nil {
 		var all []Finding
 		if err := json.Unmarshal(b, &all); err != nil {
-			fmt.Fprintln(os.Stderr, "known_findings.json unreadable:", err)
+			fmt.Println("HARNESS-ERROR: known_findings.json unreadable:", err)
 			os.Exit(2)
 		}
 		for _, f := range all {
@@ -134,65 +171,79 @@ func (c *Check) Thorough() bool { return c.Tier == "thorough" }
 // enumerating and call Cap.
 func (c *Check) Expired() bool { return time.Now().After(c.deadline) }
 
+// counting: work outside Parallel is repeated by every worker and must be
+// counted once.
+func counting() bool { return shardN == 0 || inPar || shardK == 0 }
+
 // Cap records that part of the space was not covered.
 func (c *Check) Cap(what string) {
 	c.mu.Lock()
 	defer c.mu.Unlock()
-	for _, w := range c.capped {
+	for _, w := range c.p.Capped {
 		if w == what {
 			return
 		}
 	}
-	c.capped = append(c.capped, what)
+	c.p.Capped = append(c.p.Capped, what)
 }
 
 func (c *Check) Note(s string) {
+	if !counting() {
+		return
+	}
 	c.mu.Lock()
-	c.notes = append(c.notes, s)
+	c.p.Notes = append(c.p.Notes, s)
 	c.mu.Unlock()
 }
 
 // Count adds to a named measured counter (states, transitions, ...).
 func (c *Check) Count(name string, n int64) {
+	if !counting() {
+		return
+	}
 	c.mu.Lock()
-	c.counters[name] += n
+	c.p.Counters[name] += n
 	c.mu.Unlock()
 }
 
 // Eval counts n oracle evaluations.
-func (c *Check) Eval(n int) { c.evals.Add(int64(n)) }
+func (c *Check) Eval(n int) {
+	if counting() {
+		c.p.Evals += int64(n)
+	}
+}
 
 // Nontrivial records a distinct non-trivial case descriptor.
 func (c *Check) Nontrivial(desc string) {
+	if !counting() {
+		return
+	}
 	h := sha256.Sum256([]byte(desc))
-	k := binary.LittleEndian.Uint64(h[:8])
-	i := k & 63
-	c.ntmu[i].Lock()
-	c.nt[i][k] = struct{}{}
-	c.ntmu[i].Unlock()
+	c.nt[binary.LittleEndian.Uint64(h[:8])] = struct{}{}
 }
 
 // Class counts an observed outcome class and keeps the first samples of it.
 func (c *Check) Class(class string, sample func() any) {
+	if !counting() {
+		return
+	}
 	c.mu.Lock()
-	c.classes[class]++
-	if len(c.samples[class]) < 3 && sample != nil {
-		c.samples[class] = append(c.samples[class], sample())
+	c.p.Classes[class]++
+	if len(c.p.Samples[class]) < 3 && sample != nil {
+		c.p.Samples[class] = append(c.p.Samples[class], sample())
 	}
 	c.mu.Unlock()
 }
 
 // Case runs one self-contained, deterministic case. A panic inside is an
-// oracle failure with key panicKey. A failing case is re-run 4 more times and
-// must fail identically before it is believed.
+// oracle failure with key panicKey+"/panic". A failing case is re-run 4 more
+// times and must fail every time before it is believed.
 func (c *Check) Case(id, panicKey string, f func(x *Ctx)) {
 	if c.Only != "" {
 		if id != c.Only {
 			return
 		}
-		c.mu.Lock()
-		c.onlyHit = true
-		c.mu.Unlock()
+		c.p.OnlyHit = true
 	}
 	x := c.runOnce(id, panicKey, f)
 	if len(x.fails) == 0 {
@@ -201,36 +252,53 @@ func (c *Check) Case(id, panicKey string, f func(x *Ctx)) {
 	sig := failSig(x.fails)
 	for i := 0; i < 4; i++ {
 		y := c.runOnce(id, panicKey, f)
-		if failSig(y.fails) != sig {
-			c.mu.Lock()
-			c.broken = append(c.broken, fmt.Sprintf("case %q is not deterministic: %s vs %s", id, sig, failSig(y.fails)))
-			c.mu.Unlock()
+		if len(y.fails) == 0 {
+			// failed once, passed on an identical re-run: not believed, and not hidden
+			c.Broken("case %q is not deterministic: failed with %s, then passed on re-run", id, sig)
 			return
 		}
+		// failing on every run, possibly with differing detail (state leaking out of
+		// the code under test, e.g. a corrupted package-level value): a violation; the
+		// first run's description is kept.
 	}
 	c.mu.Lock()
 	defer c.mu.Unlock()
 	for _, fl := range x.fails {
-		v := c.viol[fl.Key]
-		if v == nil {
-			v = &violation{failure: fl, CaseID: id}
-			for i := range c.known {
-				k := &c.known[i]
-				if k.Status == "open" && matchKey(k.Key, fl.Key) {
-					v.known = k
-				}
-			}
-			c.viol[fl.Key] = v
-		}
-		v.count++
+		c.addViolation(&violation{failure: fl, CaseID: id, Count: 1})
+	}
+}
+
+func (c *Check) addViolation(v *violation) {
+	old := c.p.Viol[v.Key]
+	if old == nil {
+		c.p.Viol[v.Key] = v
+		return
+	}
+	old.Count += v.Count
+	// keep the shortest (then smallest) case as the representative
+	if len(v.CaseID) < len(old.CaseID) || (len(v.CaseID) == len(old.CaseID) && v.CaseID < old.CaseID) {
+		old.CaseID, old.What, old.Detail = v.CaseID, v.What, v.Detail
 	}
 }
 
 func matchKey(pat, key string) bool {
-	if strings.HasSuffix(pat, "*") {
-		return strings.HasPrefix(key, strings.TrimSuffix(pat, "*"))
+	// '*' matches any run of characters
+	parts := strings.Split(pat, "*")
+	if len(parts) == 1 {
+		return pat == key
 	}
-	return pat == key
+	if !strings.HasPrefix(key, parts[0]) {
+		return false
+	}
+	key = key[len(parts[0]):]
+	for i := 1; i < len(parts)-1; i++ {
+		j := strings.Index(key, parts[i])
+		if j < 0 {
+			return false
+		}
+		key = key[j+len(parts[i]):]
+	}
+	return strings.HasSuffix(key, parts[len(parts)-1])
 }
 
 func failSig(fs []failure) string {
@@ -241,12 +309,46 @@ func failSig(fs []failure) string {
 	return strings.Join(ks, ";")
 }
 
-func (c *Check) runOnce(id, panicKey string, f func(x *Ctx)) (x *Ctx) {
+// caseTimeout is the watchdog for one case. Cases take micro- to milliseconds;
+// one that is still running after this long is reported as non-terminating.
+func (c *Check) caseTimeout() time.Duration {
+	if s := os.Getenv("VERIF_CASE_TIMEOUT_S"); s != "" {
+		if v, err := strconv.Atoi(s); err == nil {
+			return time.Duration(v) * time.Second
+		}
+	}
+	if c.Tier == "thorough" {
+		return 15 * time.Minute
+	}
+	return 4 * time.Minute
+}
+
+func (c *Check) runOnce(id, panicKey string, f func(x *Ctx)) *Ctx {
+	done := make(chan *Ctx, 1)
+	go func() { done <- c.runOnceInline(id, panicKey, f) }()
+	t := time.NewTimer(c.caseTimeout())
+	defer t.Stop()
+	select {
+	case x := <-done:
+		return x
+	case <-t.C:
+		// The code under test does not return (the goroutine cannot be killed and the
+		// process state is suspect): report and stop this worker here.
+		c.mu.Lock()
+		c.addViolation(&violation{failure: failure{Key: panicKey + "/hang",
+			What: fmt.Sprintf("case did not terminate within %v (non-termination in the code under test)", c.caseTimeout())}, CaseID: id, Count: 1})
+		c.p.Capped = append(c.p.Capped, "a worker stopped after a non-terminating case")
+		c.mu.Unlock()
+		c.Finish("", nil, nil)
+		return nil
+	}
+}
+
+func (c *Check) runOnceInline(id, panicKey string, f func(x *Ctx)) (x *Ctx) {
 	x = &Ctx{ID: id, c: c}
 	defer func() {
 		if r := recover(); r != nil {
 			st := string(debug.Stack())
-			// keep the frames below the panic short
 			lines := strings.Split(st, "\n")
 			if len(lines) > 24 {
 				lines = lines[:24]
@@ -261,107 +363,249 @@ func (c *Check) runOnce(id, panicKey string, f func(x *Ctx)) (x *Ctx) {
 // Broken records a harness-internal failure (exit 2, never a VIOLATION).
 func (c *Check) Broken(format string, a ...any) {
 	c.mu.Lock()
-	c.broken = append(c.broken, fmt.Sprintf(format, a...))
+	c.p.Broken = append(c.p.Broken, fmt.Sprintf(format, a...))
 	c.mu.Unlock()
 }
 
-// Out is where evidence and replay files go (default Root()).
-func Out() string {
-	if r := os.Getenv("VERIF_OUT"); r != "" {
-		return r
+// Parallel executes f(i) for every i in [0,n): in a worker, for the indices
+// this worker claims; in single-process mode, for all of them in order.
+func Parallel(n int, f func(i int)) {
+	parSeq++
+	inPar = true
+	defer func() { inPar = false }()
+	if shardN == 0 {
+		for i := 0; i < n; i++ {
+			f(i)
+		}
+		return
 	}
-	return Root()
+	dir := filepath.Join(partDir, fmt.Sprintf("claims-%d", parSeq))
+	_ = os.MkdirAll(dir, 0o755)
+	// start at a worker-specific offset so that neighbours do not collide on every item
+	off := shardK * n / shardN
+	for j := 0; j < n; j++ {
+		i := (off + j) % n
+		fh, err := os.OpenFile(filepath.Join(dir, strconv.Itoa(i)), os.O_CREATE|os.O_EXCL|os.O_WRONLY, 0o644)
+		if err != nil {
+			continue // claimed by another worker
+		}
+		fh.Close()
+		f(i)
+	}
 }
 
-// Parallel runs f(i) for i in [0,n) on all cores.
-func Parallel(n int, f func(i int)) {
-	w := runtime.GOMAXPROCS(0)
-	if w > n {
-		w = n
+// Finish ends the check: a worker writes its partial result, a single process
+// (replay / VERIF_WORKERS=0) finalises directly.
+func (c *Check) Finish(rule string, assumptions []string, extra map[string]any) {
+	c.mu.Lock()
+	c.p.Level, c.p.Rule, c.p.Assumptions, c.p.Extra = c.Level, rule, assumptions, extra
+	c.p.Finished = true
+	c.mu.Unlock()
+	if shardN == 0 {
+		c.finalize(&c.p, c.nt)
+		return
 	}
-	var next atomic.Int64
+	c.mu.Lock()
+	b, err := json.Marshal(&c.p)
+	if err != nil {
+		// a sample or detail that does not serialise: drop them rather than lose the verdict
+		c.p.Samples, c.p.Extra = nil, nil
+		b, _ = json.Marshal(&c.p)
+	}
+	nb := make([]byte, 0, 8*len(c.nt))
+	for k := range c.nt {
+		nb = binary.LittleEndian.AppendUint64(nb, k)
+	}
+	base := filepath.Join(partDir, fmt.Sprintf("part-%d", shardK))
+	_ = os.WriteFile(base+".nt", nb, 0o644)
+	_ = os.WriteFile(base+".json.tmp", b, 0o644)
+	_ = os.Rename(base+".json.tmp", base+".json")
+	os.Exit(0)
+}
+
+// IsParent reports whether this process should orchestrate workers.
+func (c *Check) IsParent() bool {
+	return shardN == 0 && c.Only == "" && workers() > 0
+}
+
+func workers() int {
+	if s := os.Getenv("VERIF_WORKERS"); s != "" {
+		if v, err := strconv.Atoi(s); err == nil {
+			return v
+		}
+	}
+	n := runtime.NumCPU()
+	if n > 16 {
+		n = 16
+	}
+	return n
+}
+
+// RunParent starts the workers, merges their partial results and finalises.
+func (c *Check) RunParent() {
+	n := workers()
+	_ = os.MkdirAll(Out(), 0o755)
+	dir, err := os.MkdirTemp(Out(), ".run-"+c.ID+"-")
+	if err != nil {
+		fmt.Println("HARNESS-ERROR: cannot create run directory:", err)
+		os.Exit(2)
+	}
+	defer os.RemoveAll(dir)
+	self, _ := os.Executable()
+	type wres struct {
+		err    error
+		stderr string
+	}
+	res := make([]wres, n)
 	var wg sync.WaitGroup
-	for k := 0; k < w; k++ {
+	for k := 0; k < n; k++ {
 		wg.Add(1)
-		go func() {
+		go func(k int) {
 			defer wg.Done()
-			for {
-				i := int(next.Add(1)) - 1
-				if i >= n {
-					return
-				}
-				f(i)
+			cmd := exec.Command(self, os.Args[1:]...)
+			cmd.Env = append(os.Environ(), fmt.Sprintf("VERIF_SHARD=%d/%d", k, n), "VERIF_PARTDIR="+dir, "GOMAXPROCS=2")
+			var eb bytes.Buffer
+			cmd.Stderr = &eb
+			cmd.Stdout = &eb
+			res[k].err = cmd.Run()
+			s := eb.String()
+			if len(s) > 6000 {
+				s = s[:3000] + "\n...\n" + s[len(s)-3000:]
 			}
-		}()
+			res[k].stderr = s
+		}(k)
 	}
 	wg.Wait()
+	merged := partial{Counters: map[string]int64{}, Classes: map[string]int64{}, Samples: map[string][]any{}, Viol: map[string]*violation{}}
+	nt := map[uint64]struct{}{}
+	c.p = merged
+	for k := 0; k < n; k++ {
+		base := filepath.Join(dir, fmt.Sprintf("part-%d", k))
+		b, err := os.ReadFile(base + ".json")
+		var p partial
+		if err == nil {
+			err = json.Unmarshal(b, &p)
+		}
+		if err != nil || !p.Finished {
+			// the worker died without reporting: a crash of the runtime itself
+			out := res[k].stderr
+			if strings.Contains(out, "go.dedis.ch/kyber") && (strings.Contains(out, "fatal error:") || strings.Contains(out, "stack exceeds")) {
+				c.addViolation(&violation{failure: failure{Key: c.ID + "/fatal-crash", What: "a worker process died with a Go runtime fatal error inside kyber code", Detail: out}, CaseID: fmt.Sprintf("worker %d", k), Count: 1})
+			} else {
+				c.p.Broken = append(c.p.Broken, fmt.Sprintf("worker %d ended without a result (%v): %s", k, res[k].err, out))
+			}
+			continue
+		}
+		c.p.Evals += p.Evals
+		for kk, v := range p.Counters {
+			c.p.Counters[kk] += v
+		}
+		for kk, v := range p.Classes {
+			c.p.Classes[kk] += v
+		}
+		for kk, v := range p.Samples {
+			for _, s := range v {
+				if len(c.p.Samples[kk]) < 3 {
+					c.p.Samples[kk] = append(c.p.Samples[kk], s)
+				}
+			}
+		}
+		c.p.Notes = append(c.p.Notes, p.Notes...)
+		for _, v := range p.Viol {
+			c.addViolation(v)
+		}
+		for _, w := range p.Capped {
+			c.Cap(w)
+		}
+		c.p.Broken = append(c.p.Broken, p.Broken...)
+		if p.Rule != "" {
+			c.p.Level, c.p.Rule, c.p.Assumptions, c.p.Extra = p.Level, p.Rule, p.Assumptions, p.Extra
+		}
+		if nb, err := os.ReadFile(base + ".nt"); err == nil {
+			for i := 0; i+8 <= len(nb); i += 8 {
+				nt[binary.LittleEndian.Uint64(nb[i:])] = struct{}{}
+			}
+		}
+	}
+	sort.Strings(c.p.Notes)
+	if c.p.Level != "" {
+		c.Level = c.p.Level
+	}
+	c.finalize(&c.p, nt)
 }
 
-// Finish writes evidence and replay files, prints the verdict lines and exits.
-func (c *Check) Finish(rule string, assumptions []string, extra map[string]any) {
+// finalize writes evidence and replay files, prints the verdict lines and exits.
+func (c *Check) finalize(p *partial, nts map[uint64]struct{}) {
 	wall := time.Since(c.start).Seconds()
-	if len(c.broken) > 0 {
-		for _, b := range c.broken {
-			fmt.Println("HARNESS-ERROR:", b)
+	if len(p.Broken) > 0 {
+		seen := map[string]bool{}
+		for _, b := range p.Broken {
+			if !seen[b] {
+				fmt.Println("HARNESS-ERROR:", b)
+			}
+			seen[b] = true
 		}
 		os.Exit(2)
 	}
-	if c.Only != "" && !c.onlyHit {
+	if c.Only != "" && !p.OnlyHit {
 		fmt.Printf("HARNESS-ERROR: replay case %q not found in the enumeration\n", c.Only)
 		os.Exit(2)
 	}
-	nt := 0
-	for i := range c.nt {
-		nt += len(c.nt[i])
-	}
+	nt := len(nts)
 	cov := map[string]any{
-		"evaluations":         c.evals.Load(),
+		"evaluations":         p.Evals,
 		"distinct_nontrivial": nt,
-		"rule":                rule,
-		"exhaustive":          len(c.capped) == 0,
-		"outcome_classes":     c.classes,
+		"rule":                p.Rule,
+		"exhaustive":          len(p.Capped) == 0,
+		"outcome_classes":     p.Classes,
+		"worker_processes":    workers(),
 	}
-	if len(c.capped) > 0 {
-		cov["caps_hit"] = c.capped
+	if len(p.Capped) > 0 {
+		cov["caps_hit"] = p.Capped
 	}
-	for k, v := range c.counters {
+	for k, v := range p.Counters {
 		cov[k] = v
 	}
 	var samples []any
 	var cls []string
-	for k := range c.samples {
+	for k := range p.Samples {
 		cls = append(cls, k)
 	}
 	sort.Strings(cls)
 	for _, k := range cls {
-		for _, s := range c.samples[k] {
-			samples = append(samples, map[string]any{"class": k, "case": s})
-			if len(samples) >= 40 {
-				break
+		for _, s := range p.Samples[k] {
+			if len(samples) < 40 {
+				samples = append(samples, map[string]any{"class": k, "case": s})
 			}
 		}
 	}
 	cov["samples"] = samples
-	if len(c.notes) > 0 {
-		cov["notes"] = c.notes
+	if len(p.Notes) > 0 {
+		cov["notes"] = p.Notes
 	}
-	for k, v := range extra {
+	for k, v := range p.Extra {
 		cov[k] = v
 	}
-	// violations
 	var keys []string
-	for k := range c.viol {
+	for k := range p.Viol {
 		keys = append(keys, k)
 	}
 	sort.Strings(keys)
 	nviol := 0
 	exit := 0
 	var vlist []any
+	out := bufio.NewWriter(os.Stdout)
 	for _, k := range keys {
-		v := c.viol[k]
-		if v.known != nil {
-			fmt.Printf("KNOWN-FINDING: property=%s %s [%s] (%d cases, first: %s)\n", c.ID, v.known.What, v.Key, v.count, v.CaseID)
-			vlist = append(vlist, map[string]any{"key": k, "known_finding": true, "cases": v.count})
+		v := p.Viol[k]
+		var kf *Finding
+		for i := range c.known {
+			if c.known[i].Status == "open" && matchKey(c.known[i].Key, k) {
+				kf = &c.known[i]
+			}
+		}
+		if kf != nil {
+			fmt.Fprintf(out, "KNOWN-FINDING: property=%s %s [%s] (%d cases, e.g. %s)\n", c.ID, kf.What, v.Key, v.Count, v.CaseID)
+			vlist = append(vlist, map[string]any{"key": k, "known_finding": true, "cases": v.Count})
 			continue
 		}
 		nviol++
@@ -371,20 +615,20 @@ func (c *Check) Finish(rule string, assumptions []string, extra map[string]any) 
 		_ = os.MkdirAll(filepath.Dir(rp), 0o755)
 		rb, _ := json.MarshalIndent(map[string]any{
 			"property": c.ID, "tier": c.Tier, "seed": c.Seed, "key": k, "case_id": v.CaseID,
-			"what": v.What, "detail": v.Detail, "cases_with_this_key": v.count,
+			"what": v.What, "detail": v.Detail, "cases_with_this_key": v.Count,
 			"replay": fmt.Sprintf("./vf replay %s", rp),
 		}, "", " ")
 		_ = os.WriteFile(rp, rb, 0o644)
-		fmt.Printf("VIOLATION property=%s replay=%s\n", c.ID, rp)
-		fmt.Printf("  key=%s case=%s\n  %s\n", k, v.CaseID, v.What)
-		vlist = append(vlist, map[string]any{"key": k, "case": v.CaseID, "what": v.What, "cases": v.count, "replay": rp})
+		fmt.Fprintf(out, "VIOLATION property=%s replay=%s\n", c.ID, rp)
+		fmt.Fprintf(out, "  key=%s case=%s\n  %s\n", k, v.CaseID, v.What)
+		vlist = append(vlist, map[string]any{"key": k, "case": v.CaseID, "what": v.What, "cases": v.Count, "replay": rp})
 	}
 	if len(vlist) > 0 {
 		cov["violation_list"] = vlist
 	}
 	ev := map[string]any{
 		"property_id": c.ID, "tier": c.Tier, "seed": c.Seed, "level": c.Level,
-		"coverage": cov, "assumptions": assumptions, "wall_s": wall, "violations": nviol,
+		"coverage": cov, "assumptions": p.Assumptions, "wall_s": wall, "violations": nviol,
 	}
 	if c.Only == "" {
 		b, _ := json.MarshalIndent(ev, "", " ")
@@ -394,14 +638,21 @@ func (c *Check) Finish(rule string, assumptions []string, extra map[string]any) 
 			name = c.ID + "." + sfx + ".part"
 		}
 		if err := os.WriteFile(filepath.Join(Out(), "evidence", name), b, 0o644); err != nil {
-			fmt.Println("HARNESS-ERROR: cannot write evidence:", err)
+			fmt.Fprintln(out, "HARNESS-ERROR: cannot write evidence:", err)
+			out.Flush()
 			os.Exit(2)
 		}
 	}
-	fmt.Printf("%s %s: evaluations=%d distinct_nontrivial=%d classes=%d violations=%d exhaustive=%v wall=%.1fs\n",
-		c.ID, c.Tier, c.evals.Load(), nt, len(c.classes), nviol, len(c.capped) == 0, wall)
-	for k, v := range c.counters {
-		fmt.Printf("  %s=%d\n", k, v)
+	fmt.Fprintf(out, "%s %s: evaluations=%d distinct_nontrivial=%d classes=%d violations=%d exhaustive=%v wall=%.1fs\n",
+		c.ID, c.Tier, p.Evals, nt, len(p.Classes), nviol, len(p.Capped) == 0, wall)
+	var cn []string
+	for k := range p.Counters {
+		cn = append(cn, k)
 	}
+	sort.Strings(cn)
+	for _, k := range cn {
+		fmt.Fprintf(out, "  %s=%d\n", k, p.Counters[k])
+	}
+	out.Flush()
 	os.Exit(exit)
 }
